@@ -129,6 +129,9 @@ type seatRun struct {
 	closedAfterAssign []bool // seats the last assignment left inactive
 	engine            bool   // integration step: hand the positions to the engine
 	r                 *rand.Rand
+	// C08 waiting watch: seats that the last assignment left occupied, closed and strictly between dealer
+	// and big blind; nil once anybody else has moved
+	waiting map[int]bool
 }
 
 func (s *seatRun) fail(rule, cause, msg string) {
@@ -335,6 +338,9 @@ func (s *seatRun) apply(op SeatOp) {
 	}
 	if s.failed {
 		return
+	}
+	if op.Kind != 'N' && s.waiting != nil && !(op.Kind == 'S' && s.waiting[op.Seat]) {
+		s.waiting = nil // somebody else moved (or the table was restored): nothing is claimed for this hand
 	}
 	if op.Kind != 'N' && s.watchSeat >= 0 && !s.justArmed && !(op.Kind == 'S' && op.Seat == s.watchSeat) {
 		// somebody moved: the deal-in claim ("other players staying put") no longer applies
@@ -631,6 +637,7 @@ func (s *seatRun) onNext(pre, post []seatView, prevD int, err error) {
 		// so nothing is known about closed seats until the next successful move
 		s.emptyAtAssign, s.closedAfterAssign = nil, nil
 		s.watchSeat = -1
+		s.waiting = nil
 		return
 	}
 	if s.props["C18"] {
@@ -698,6 +705,26 @@ func (s *seatRun) onNext(pre, post []seatView, prevD int, err error) {
 			}
 		}
 		s.rep.Inc("empty_seats_between_checked")
+		// waiting watch: a player who sat waiting on a closed seat between dealer and big blind when the
+		// previous hand was set up, with nobody else moving since, is not dealt in before the button has
+		// moved past his seat (the deal-in clause, hand by hand: it does not matter what happened before
+		// the previous hand was set up)
+		for x := range s.waiting {
+			if !post[x].occ || post[x].res || prevD < 0 || d.ID == x || strictlyBetween(prevD, x, d.ID, s.max) {
+				continue
+			}
+			s.rep.Inc("waiting_players_not_passed_checked")
+			if inInts(PP, x) {
+				s.fail("C08/dealt-in-early", "watch=waiting-player", fmt.Sprintf("seat %d was waiting on a closed seat between dealer and big blind when the previous hand was set up; nobody else has moved, the button went from %d to %d without passing the seat, and it is dealt in (dealer %d sb %d bb %d, seats %v)", x, prevD, d.ID, d.ID, sb.ID, bb.ID, post))
+				return
+			}
+		}
+		s.waiting = map[int]bool{}
+		for x, v := range post {
+			if v.occ && !v.act && strictlyBetween(d.ID, x, bb.ID, s.max) {
+				s.waiting[x] = true
+			}
+		}
 		// deal-in watch
 		if s.watchSeat >= 0 && (!post[s.watchSeat].occ || post[s.watchSeat].res) {
 			s.watchSeat = -1 // the joiner has not sat in: nothing is claimed
@@ -998,6 +1025,20 @@ func runCollapse(s *seatRun, r *rand.Rand) {
 		s.apply(SeatOp{Kind: 'N', Seat: 0})
 	}
 	if !s.failed && r.Intn(2) == 0 {
+		// newcomers who had taken a seat without sitting in do so now, after the collapse hand was set up;
+		// from here on everybody stays put
+		late := 0
+		for seat, v := range viewSeats(s.m) {
+			if v.occ && v.res && r.Intn(3) != 0 {
+				s.apply(SeatOp{Kind: 'S', Seat: seat})
+				late++
+			}
+		}
+		if late > 0 {
+			s.rep.Inc("class_sit_in_after_the_collapse_hand")
+		}
+	}
+	for k := r.Intn(3); k > 0 && !s.failed && dealerID(s.m) >= 0; k-- {
 		s.apply(SeatOp{Kind: 'N', Seat: 0})
 	}
 }
